@@ -7,9 +7,9 @@
 package c08
 
 import (
-	"os"
 	"fmt"
 	"math/rand"
+	"os"
 	"path/filepath"
 	"regexp"
 	"sort"
@@ -238,14 +238,14 @@ func offsetsOf(pkts []string) (ids []string, events int, binOK bool) {
 }
 
 type e2eParams struct {
-	Kinds   []string
-	K       int    // disconnect after K broadcasts
-	Delay   string // "short" | "long"
-	Offset  string // "valid" | "unknown"
-	PID     string // "valid" | "unknown"
-	Binary  bool
-	Sig     string
-	GateMw  bool // K6: a broadcast while the restored socket waits in a middleware
+	Kinds  []string
+	K      int    // disconnect after K broadcasts
+	Delay  string // "short" | "long"
+	Offset string // "valid" | "unknown"
+	PID    string // "valid" | "unknown"
+	Binary bool
+	Sig    string
+	GateMw bool // K6: a broadcast while the restored socket waits in a middleware
 }
 
 func (e *env) e2eRaw(p e2eParams) {
@@ -309,26 +309,38 @@ func (e *env) e2eRaw(p e2eParams) {
 		w.srv.IO.In("r3").SocketsLeave("r3")
 	}
 	var addressed []string
-	// the id the log gave to the packet just broadcast (the broadcast is appended on its own goroutine: wait for a new last id)
-	prevLast := ""
+	// the id the log gave to the packet just broadcast: the next log.append record of this scenario (the broadcast
+	// is appended on its own goroutine; the record stays even when the cleaner has removed the entry again)
+	seenAppends := 0
 	lastLog := func() string {
-		cur := ""
-		rig.WaitUntil(time.Second, func() bool {
-			ids := adapter.VerifLogIDs(w.srv.IO.Of("/").Adapter())
-			if len(ids) == 0 {
-				return false
+		id := ""
+		rig.WaitUntil(3*time.Second, func() bool {
+			k := 0
+			for _, r := range vtrace.Snapshot() {
+				if r["ev"] == "log.append" {
+					k++
+					if k == seenAppends+1 {
+						id = fmt.Sprint(r["id"])
+						return true
+					}
+				}
 			}
-			cur = ids[len(ids)-1]
-			return cur != prevLast
+			return false
 		})
-		prevLast = cur
-		return cur
+		if id != "" {
+			seenAppends++
+		}
+		return id
 	}
 	n := 0
 	tFirstEmit := time.Now() // the packet the client will name as its offset is not older than this
 	for ; n < p.K && n < len(p.Kinds); n++ {
-		if emit(w, ss, p.Kinds[n], n, p.Binary) {
-			addressed = append(addressed, lastLog())
+		{
+			ok := emit(w, ss, p.Kinds[n], n, p.Binary)
+			id := lastLog() // every broadcast is appended to the log, addressed to this client or not
+			if ok {
+				addressed = append(addressed, id)
+			}
 		}
 	}
 	// wait until the client has what was addressed to it so far, then drop the connection
@@ -345,8 +357,12 @@ func (e *env) e2eRaw(p e2eParams) {
 		if kind == "direct" {
 			kind = "room"
 		}
-		if emit(w, nil, kind, n, p.Binary) {
-			addressed = append(addressed, lastLog())
+		{
+			ok := emit(w, nil, kind, n, p.Binary)
+			id := lastLog() // every broadcast is appended to the log, addressed to this client or not
+			if ok {
+				addressed = append(addressed, id)
+			}
 		}
 	}
 	if p.Delay == "long" {
@@ -380,8 +396,12 @@ func (e *env) e2eRaw(p e2eParams) {
 		// the restored socket sits in a middleware: not yet reachable, already restored
 		select {
 		case <-inMw:
-			if emit(w, nil, "room", 900, false) {
-				addressed = append(addressed, lastLog())
+			{
+				ok := emit(w, nil, "room", 900, false)
+				id := lastLog() // every broadcast is appended to the log, addressed to this client or not
+				if ok {
+					addressed = append(addressed, id)
+				}
 			}
 		case <-time.After(2 * time.Second):
 		}
@@ -406,8 +426,12 @@ func (e *env) e2eRaw(p e2eParams) {
 	// live traffic after the reconnect
 	if recovered {
 		for j := 0; j < 2; j++ {
-			if emit(w, ss2, []string{"room", "nsp"}[j], 100+j, false) {
-				addressed = append(addressed, lastLog())
+			{
+				ok := emit(w, ss2, []string{"room", "nsp"}[j], 100+j, false)
+				id := lastLog() // every broadcast is appended to the log, addressed to this client or not
+				if ok {
+					addressed = append(addressed, id)
+				}
 			}
 		}
 	}
@@ -566,6 +590,7 @@ func (e *env) goClientTwice() {
 	}
 	ss := w.waitSock(1)
 	rig.WaitUntil(2*time.Second, func() bool { return ss != nil && ss.Rooms().Contains("r1") })
+	firstID := c.ID()
 	emit(w, ss, "nsp", 1, false)
 	waitGot(1)
 	recoveredBoth := true
@@ -587,19 +612,30 @@ func (e *env) goClientTwice() {
 		waitGot(round + 2)
 		time.Sleep(60 * time.Millisecond) // nothing live in between
 		ss2 := w.waitSock(round + 2)
-		if ss2 == nil || !ss2.Recovered() || !c.Recovered() {
+		rec := ss2 != nil && ss2.Recovered()
+		if !rec || !c.Recovered() {
 			recoveredBoth = false
 		}
+		// this round's verdict, as the socket and the client report it, against the adapter's (lastOk)
+		vtrace.Emit("e2e", "class", "e2e-goclient-twice", "client", "go", "recovered", rec, "expectRecovered", true, "clientRecovered", c.Recovered(),
+			"sameSid", rec && c.ID() == firstID, "roomsOk", !rec || ss2.Rooms().Contains("r1"), "addressed", []string{}, "received", []string{},
+			"intact", true, "binary", false, "round", round, "strict", false, "comfortable", false)
 	}
 	time.Sleep(100 * time.Millisecond)
 	mu.Lock()
 	received := append([]string{}, got...)
 	mu.Unlock()
-	vtrace.Emit("e2e", "class", "e2e-goclient-twice", "client", "go", "recovered", recoveredBoth, "expectRecovered", true, "clientRecovered", recoveredBoth,
-		"sameSid", true, "roomsOk", true, "addressed", []string{"m1", "m2", "m3"}, "received", received,
-		"intact", true, "binary", false, "strict", true, "comfortable", false)
+	if recoveredBoth {
+		// both recoveries happened: everything exactly once, in order
+		vtrace.Emit("e2e", "class", "e2e-goclient-twice", "client", "go", "recovered", true, "expectRecovered", true, "clientRecovered", true,
+			"sameSid", c.ID() == firstID, "roomsOk", true, "addressed", []string{"m1", "m2", "m3"}, "received", received,
+			"intact", true, "binary", false, "strict", true, "comfortable", false)
+		e.res.Case("goclient-twice", true)
+	} else {
+		// a round was not restored (the adapter's verdict, which the specification judged): the double replay cannot be looked at
+		e.res.Inconclusive("goclient-twice", "a round was not recovered", id)
+	}
 	e.end()
-	e.res.Case("goclient-twice", true)
 }
 
 func TestC08(t *testing.T) {
